@@ -16,7 +16,7 @@ impl Property for C04 {
     }
     fn rule(&self) -> String {
         "case = (shape = generated #[flat] program, value, EVERY buffer length n in MIN_SIZE ..= MIN_SIZE+4*ALIGN+9); \
-         oracle (three-way) = library constants ALIGN/MIN_SIZE/SIZE == compiler (align_of/size_of/align_of_val/size_of_val, field addresses recorded while walking the mapped value) == reference C-layout rule; size_of_val <= n; as_bytes().len() <= n; capacities == reference; \
+         oracle (three-way) = library constants ALIGN/MIN_SIZE/SIZE == compiler (align_of/size_of/align_of_val/size_of_val, field addresses recorded while walking the mapped value) == reference C-layout rule; size_of_val <= n; as_bytes().len() == size_of_val; capacities == reference; \
          non-trivial = shape has fields of different alignment, nesting depth >= 2 or an unsized tail, and (for unsized shapes) n is not a multiple of ALIGN; distinct by (shape, n, value); \
          plus direct checks of ceil_mul/floor_mul/max/min and PosIter against arithmetic"
             .into()
@@ -141,6 +141,9 @@ impl Property for C04 {
                     out.size_of_val,
                     vl
                 );
+            }
+            if out.bytes_len != out.size_of_val {
+                vfail!("as_bytes", "{}: mapped on {} bytes, as_bytes() has {} bytes but size_of_val is {}", name, n, out.bytes_len, out.size_of_val);
             }
             if out.bytes_len > n || out.bytes_off != 0 {
                 vfail!("as_bytes", "{}: mapped on {} bytes, as_bytes() is [{}, +{})", name, n, out.bytes_off as isize, out.bytes_len);
